@@ -525,7 +525,7 @@ theorem Core.pushG {s : State} {r : Id} {up : List Id} {ph : Phase} (h : Core s 
     (hx : Loose s.dom x) (hfresh : x ∉ s.openElems) (hk : PushOk s (nm s.dom x)) :
     Core { s with openElems := s.openElems ++ [x] } r (up ++ [x]) ph := by
   refine ⟨h.late.push hx, by show s.openElems ++ [x] = _; rw [h.stack]; rfl, h.rdoc, ?_, ?_, h.afn, ?_, h.tmm, h.form,
-    h.rtu, h.rnd, h.kids, h.elems, ?_⟩
+    h.rtu, h.rnd, h.kids, h.elems, ?_, h.afx⟩
   · show (s.openElems ++ [x]).Nodup
     rw [List.nodup_append]
     exact ⟨h.nodup, by simp, by intro a ha b hb; simp at hb; subst hb; rintro rfl; exact hfresh ha⟩
@@ -550,7 +550,7 @@ theorem Core.pushG {s : State} {r : Id} {up : List Id} {ph : Phase} (h : Core s 
       simp only [List.cons_append, List.tail_cons, List.mem_append, List.mem_singleton] at hy
       rcases hy with hy | rfl
       · exact h.bh y (by rw [hup]; exact hy)
-      · exact hk.2.1
+      · exact bh_of4 hk.2.1
 
 theorem Core.push {s : State} {r : Id} {up : List Id} {ph : Phase} (h : Core s r up ph) {x : Id}
     (hx : Loose s.dom x) (hfresh : x ∉ s.openElems) (hk : keepName (nm s.dom x) = false) :
